@@ -44,11 +44,27 @@ def simplePath (l : Path) : Bool :=
     if j = i + 1 then !onSeg f.1 f.2 e.1 && !onSeg e.1 e.2 f.2
     else !segsMeet e.1 e.2 f.1 f.2
 
-/-- every member simple, members pairwise disjoint -/
+/-- end points of a path -/
+def pathEnds (l : Path) : List P :=
+  match l.head?, l.getLast? with
+  | some a, some b => [a, b]
+  | _, _ => []
+
+/-- segments `e` of member `l` and `f` of member `m` are disjoint, or meet in exactly one point that
+is an end point of both members (a junction) -/
+def contactOK (l m : Path) (e f : P × P) : Bool :=
+  !segsMeet e.1 e.2 f.1 f.2 ||
+  (!properCross e.1 e.2 f.1 f.2 &&
+   [(e.1, e.2), (e.2, e.1)].any fun (v, x) => [(f.1, f.2), (f.2, f.1)].any fun (w, y) =>
+     decide (v = w) && decide (v ∈ pathEnds l) && decide (v ∈ pathEnds m) &&
+     !onSeg f.1 f.2 x && !onSeg e.1 e.2 y)
+
+/-- every member simple; different members meet at most in common end points (junctions of a
+network), their interiors neither cross nor touch -/
 def simplePaths (ls : List Path) : Bool :=
   ls.all simplePath &&
   (idxPairs ls).all fun ((_, l), (_, m)) =>
-    (pairs l).all fun e => (pairs m).all fun f => !segsMeet e.1 e.2 f.1 f.2
+    (pairs l).all fun e => (pairs m).all fun f => contactOK l m e f
 
 /-- no line vertex on the polygon boundary, no polygon vertex on the line (hence no collinear
 overlap): every line segment and polygon edge are disjoint or cross properly -/
